@@ -141,6 +141,36 @@ def run(m: Model, r: Report, tier: str) -> None:
     atoms = {"payload.SourceAddress != self.target_addr", "payload.TargetAddress != self.src_addr"}
     tr.address_filter(r, "R6", ack, atoms, m)
     tr.address_filter(r, "R6", diag, atoms, m)
+    # the separate diagnostic-message queue hands out frames without the address filter: every return of the reader that is not
+    # preceded by the filter is only acceptable while nothing in gallia switches that mode on
+    gd = CFG(diag.node)
+    filt_nodes = {n.id for n in gd.nodes.values() if n.kind == "cond" and n.ast is not None and "SourceAddress" in ast.unparse(n.ast) and "TargetAddress" in ast.unparse(n.ast)}
+    ret_nodes = {n.id for n in gd.nodes.values() if n.kind == "return"}
+    okf, pth = gd.must_pass(gd.entry, filt_nodes, ret_nodes)
+    unfiltered_flag = None
+    if not okf:
+        flags = [ast.unparse(gd.nodes[x].ast) for x in pth if gd.nodes[x].kind == "cond" and isinstance(gd.nodes[x].ast, ast.Attribute)]
+        unfiltered_flag = flags[0].replace("self.", "") if flags else "?"
+    enabled = []
+    if unfiltered_flag and unfiltered_flag != "?":
+        # call sites on the transport's own construction path (the discovery command probes many target addresses through its own
+        # connection and reads them unfiltered on purpose; it is not the transport `read()` of the property)
+        tcls = m.require_class(f"{DOIP}.DoIPTransport")
+        for f in [f_ for c_ in m.subclasses(tcls) for f_ in c_.methods.values()] + list(m.require_class(f"{DOIP}.DoIPConnection").methods.values()):
+            for n in walk_no_nested(f.node):
+                if isinstance(n, ast.Call) and ast.unparse(n.func) in ("DoIPConnection.connect", "DoIPConnection", "cls"):
+                    if ast.unparse(n.func) == "cls" and (f.cls is None or f.cls.name != "DoIPConnection"):
+                        continue
+                    b = tr.bind_call(m, f, n)
+                    v = b.get(unfiltered_flag) if b else next((k.value for k in n.keywords if k.arg == unfiltered_flag), None)
+                    if v is not None and not (isinstance(v, ast.Constant) and v.value is False) and not (isinstance(v, ast.Name) and v.id == unfiltered_flag):
+                        enabled.append(f"{f.qualname}:{n.lineno} passes {unfiltered_flag}={ast.unparse(v)}")
+        dflt = m.require_function(f"{DOIP}.DoIPConnection.connect").param_defaults().get(unfiltered_flag)
+        if dflt is None or not (isinstance(dflt, ast.Constant) and dflt.value is False):
+            enabled.append(f"DoIPConnection.connect defaults {unfiltered_flag} to {ast.unparse(dflt) if dflt is not None else '<required>'}")
+    r.check(okf or (unfiltered_flag not in (None, "?") and not enabled), "R6", f"{diag.qualname}#every-delivered-frame-filtered",
+            f"a diagnostic message can be returned without the address filter (mode {unfiltered_flag}) and that mode is in use: {enabled}; frames of other "
+            "(source, target) pairs are then delivered as responses", loc=diag.loc)
     pref = [n for n in walk_no_nested(ack.node) if isinstance(n, ast.If) and "PreviousDiagnosticMessageData" in ast.unparse(n.test)]
     okp = len(pref) == 1 and m.has(ack, "payload.PreviousDiagnosticMessageData != prev_data[:len(payload.PreviousDiagnosticMessageData)]", pref[0].test)
     r.check(okp, "R6", f"{ack.qualname}#echo-prefix", "the ack is not compared with the prefix of the message just sent", loc=ack.loc)
